@@ -1,4 +1,5 @@
 // u_trojan -- Trojan server and client codecs under contract (C06, C07, C04, C03, C02, C01)
+#![feature(sized_hierarchy, const_destruct)]   // names core::marker::PointeeSized in the external specification of AsRef
 use vstd::prelude::*;
 verus! {
 global size_of usize == 8;   // ASSUMPTION: 64-bit target
@@ -25,5 +26,6 @@ broadcast use axiom_v4_len, axiom_v6_len, axiom_string_utf8, axiom_ascii_utf8, a
 //@include ../parts/trojan.rs
 //@include ../parts/config.rs
 //@include ../parts/tjkeys.rs
+//@include ../parts/srvmain.rs
 } // verus!
 fn main() {}
